@@ -16,11 +16,13 @@ Notation log_apply := (log_apply hash tm dat).
 (* every request leaves storage and tree in agreement *)
 Theorem step_inv l q : Inv l -> Inv (fst (srv_step l q)).
 Proof.
-  intro Hi. destruct q as [r patch|c r patch|]; cbn [SrvReq.srv_step]; [| |exact Hi].
+  intro Hi. destruct q as [r patch|c r patch|r patch|]; cbn [SrvReq.srv_step]; [| | |exact Hi].
   - destruct (head_is hash hash_eqb H2 tm dat l r); cbn [fst]; [apply apply_inv|]; exact Hi.
   - destruct (log_rewind hash hash_eqb tm dat l c) as [l1 removed| |] eqn:Er; cbn [fst]; try exact Hi.
     destruct (rewind_ok hash hash_eqb hash_eqb_spec H2 tm dat l c l1 removed Hi Er) as (_ & Hi1 & _).
     destruct (head_is hash hash_eqb H2 tm dat l1 r); cbn [fst]; apply apply_inv; exact Hi1.
+  - destruct (l_tree l); [cbn [fst]; apply apply_inv; exact Hi|].
+    destruct (head_is hash hash_eqb H2 tm dat l r); cbn [fst]; [apply apply_inv|]; exact Hi.
 Qed.
 
 Theorem run_inv qs : forall l, Inv l -> Inv (srv_run l qs).
@@ -37,7 +39,7 @@ Theorem step_shape l q l' ok : Inv l -> srv_step l q = (l', ok) ->
      l' = l \/ (exists patch, l_recs l' = l_recs l ++ patch) \/
      (exists kept removed patch, l_recs l = kept ++ removed /\ l_recs l' = kept ++ patch)).
 Proof.
-  intros Hi H. destruct q as [r patch|c r patch|]; cbn [SrvReq.srv_step] in H.
+  intros Hi H. destruct q as [r patch|c r patch|r patch|]; cbn [SrvReq.srv_step] in H.
   - destruct (head_is hash hash_eqb H2 tm dat l r); injection H as <- <-; split; intro E; try discriminate; try reflexivity.
     right. left. exists patch. reflexivity.
   - destruct (log_rewind hash hash_eqb tm dat l c) as [l1 removed| |] eqn:Er;
@@ -46,6 +48,10 @@ Proof.
     destruct (head_is hash hash_eqb H2 tm dat l1 r); injection H as <- <-; split; intro E; try discriminate.
     + right. right. exists (l_recs l1), removed, patch. split; [exact Hrecs|reflexivity].
     + apply (rewind_rollback hash hash_eqb hash_eqb_spec H2 tm dat l c l1 removed Hi Er).
+  - destruct (l_tree l).
+    + injection H as <- <-. split; intro E; [discriminate|]. right. left. exists patch. reflexivity.
+    + destruct (head_is hash hash_eqb H2 tm dat l r); injection H as <- <-; split; intro E; try discriminate; try reflexivity.
+      right. left. exists patch. reflexivity.
   - injection H as <- <-. split; intro E; [discriminate|left; reflexivity].
 Qed.
 
